@@ -167,7 +167,7 @@ def main(tier, seed):
         f"  FullLen = {full_len}",
         f"  RepLen = {rep_len}",
         f"  RepFlags = {tla_set(rep_flags)}",
-        "INVARIANTS " + ("SplitEqGo ForwardComplete GarbleFlagRejected UnknownRejected" if model_ok else ""),
+        "INVARIANTS " + ("SplitEqGo ForwardComplete GarbleFlagRejected ValueNotRejected UnknownRejected" if model_ok else ""),
         ""])
     work = mkscratch("c20-tlc")
     r = tlc("FlagSplit", "FlagSplit-gen.cfg", workdir=work, files={"FlagSplit-gen.cfg": cfg}, timeout=1500,
@@ -181,6 +181,17 @@ def main(tier, seed):
         chk.extra["tlc_lead"] = r.violated
     table = json.loads((work / "flagsplit_table.json").read_text())
     chk.extra["table_rows"] = len(table)
+    if model_ok and not r.violated:
+        # what-if: the garble-flag test as it was before the repair of F14 (every element tested, values included):
+        # TLC must find ValueNotRejected violated, otherwise the invariant does not bite
+        w2 = mkscratch("c20-tlc-whatif")
+        cfg2 = cfg.replace("SPECIFICATION Spec\nCONSTANTS", "SPECIFICATION Spec\nCONSTANTS\n  ScanValues <- OldScan") \
+                  .replace("SplitEqGo ForwardComplete GarbleFlagRejected ValueNotRejected UnknownRejected", "ValueNotRejected")
+        r2 = tlc("FlagSplit", "FlagSplit-whatif.cfg", workdir=w2, files={"FlagSplit-whatif.cfg": cfg2}, timeout=1500, jvm=["-Xmx12g"])
+        chk.add_tlc(r2)
+        if r2.violated != "ValueNotRejected":
+            raise Inconclusive(f"what-if ScanValues: expected ValueNotRejected to be violated, got {r2.violated} / {r2.error}\n{r2.out[-1500:]}")
+        chk.extra["whatif_scanvalues_rejected"] = True
 
     # ---- B3: every row against the real functions
     garble = build_garble("verif")
